@@ -542,13 +542,18 @@ fn build_pool(
 		let ins = pl.exts(n_in);
 		pl.add(c, "single", ins, n_out, None);
 	}
-	// burn: everything goes to the fee, no outputs
-	{
+	// burn: everything goes to the fee, no outputs (three of them, one with two inputs: an aggregate may have an
+	// empty output side)
+	for nb in 0..3u64 {
 		let c = pl.new_comp();
 		let m = 1 + pl.p.below(3);
 		let k = pl.key();
-		let coin = world.coin(pl.unit * m, &k, false);
-		pl.add(c, "burn", vec![coin], 0, None);
+		let mut coins = vec![world.coin(pl.unit * m, &k, false)];
+		if nb == 1 {
+			let k2 = pl.key();
+			coins.push(world.coin(pl.unit * (1 + pl.p.below(3)), &k2, false));
+		}
+		pl.add(c, "burn", coins, 0, None);
 	}
 	// chain of two: B spends one output of A (optionally plus an external coin)
 	for _ in 0..3 {
@@ -956,6 +961,15 @@ fn gen_plan(pool: &Pool, p: &mut Prng) -> Plan {
 		while flat.len() < target && tries < 100 {
 			tries += 1;
 			add(&mut flat, p.usize_below(nb), false);
+		}
+	} else if s < 93 {
+		// operands without a single output between them
+		strategy = "spend_only";
+		let mut burns: Vec<usize> = (0..nb).filter(|i| pool.base[*i].role == "burn").collect();
+		p.shuffle(&mut burns);
+		let k = 2 + p.usize_below(2);
+		for i in burns.into_iter().take(k) {
+			flat.push(i);
 		}
 	} else if s < 96 {
 		strategy = "shared_excess";
@@ -2142,7 +2156,7 @@ fn main() {
 		 (10 independent singles with 1-3 inputs/outputs, a burn without outputs, 3 two-chains, a full spend, a three-chain, \
 		 a triangle, 2 diamonds, a 3-way fan-out, a pair with complementary offsets k / n-k, three singles whose different kernels share one excess key; kernel variant Plain/HeightLocked/NRD, \
 		 offset zero (30%) or random, 1/8 with v2-style FeaturesAndCommit inputs; inputs are coins that exist on no chain). \
-		 A case picks 1-8 distinct base transactions (strategies: independent / whole-or-part component plus extras / random / shared excess key / complementary), \
+		 A case picks 1-8 distinct base transactions (strategies: independent / whole-or-part component plus extras / random / only transactions without outputs / shared excess key / complementary), \
 		 in 35% of the cases pre-aggregates random groups into multi-kernel operands, and checks aggregate() against a reference \
 		 computed with HashMap multiset arithmetic over commitments, an own 256-bit mod-n adder and the planned fees; then every \
 		 permutation (<= 5 operands, 30 sampled beyond), 6 random nested/partition groupings (+ flat base list), 3 de-aggregations \
